@@ -24,6 +24,8 @@ type Members = BTreeMap<u8, u64>;
 pub struct Hist {
     pub cur: Members,
     pub starts: Vec<Members>,
+    /// cw4-stake only: tokens bonded minus unbonded per staker (accepted calls)
+    pub stake: Vec<u128>,
 }
 
 impl Hist {
@@ -503,6 +505,8 @@ pub struct StakeCfg {
     pub min_bond: u128,
     pub funds: Vec<u128>,
     pub amounts: Vec<u128>,
+    /// unbonding period: (time based?, length in blocks / seconds)
+    pub period: (bool, u64),
     pub hmax: u64,
 }
 
@@ -564,7 +568,7 @@ impl Model for StakeHist {
             denom: cw20::Denom::Native(DENOM.into()),
             tokens_per_weight: Uint128::new(cfg.tpw),
             min_bond: Uint128::new(cfg.min_bond),
-            unbonding_period: Duration::Height(1),
+            unbonding_period: if cfg.period.0 { Duration::Time(cfg.period.1) } else { Duration::Height(cfg.period.1) },
             admin: None,
         };
         let out = w.instantiate(stake_vt(), &a(STAKE), &a("creator"), &to_json_vec(&msg).unwrap(), &[]);
@@ -633,9 +637,38 @@ impl Model for StakeHist {
                 ("Claim", out.ok())
             }
         };
-        // a refused call leaves the kernel's world untouched (transactions are atomic): nothing to observe
-        if !matches!(act, SAct::Advance) && ok {
-            r.cur = Self::observe_cur(&w, &mut v);
+        // a refused call leaves the kernel's world untouched (transactions are atomic): nothing to observe.
+        // The true weights follow the stakes the accepted calls add up to (bond +, unbond -): every
+        // bond/unbond is a membership change of the history this property is about
+        if ok {
+            if r.stake.len() < SNAMES.len() {
+                r.stake.resize(SNAMES.len(), 0);
+            }
+            match act {
+                SAct::Bond { u, amt } => r.stake[*u as usize] = r.stake[*u as usize].saturating_add(amt.0),
+                SAct::Unbond { u, amt } => r.stake[*u as usize] = r.stake[*u as usize].saturating_sub(amt.0),
+                _ => {}
+            }
+            if !matches!(act, SAct::Advance) {
+                let floor = std::cmp::max(self.cfg.min_bond, 1);
+                let mut m = Members::new();
+                for (i, st) in r.stake.iter().enumerate() {
+                    if *st >= floor {
+                        match u64::try_from(*st / self.cfg.tpw) {
+                            Ok(wt) => {
+                                m.insert(i as u8, wt);
+                            }
+                            // a weight beyond 64 bits cannot be reported at all: take what is observed
+                            Err(_) => {
+                                if let Some(wt) = Self::observe_cur(&w, &mut v).get(&(i as u8)) {
+                                    m.insert(i as u8, *wt);
+                                }
+                            }
+                        }
+                    }
+                }
+                r.cur = m;
+            }
         }
         self.memo.once(fp128(&(&w, &r, false)), &mut v, |v| check_history(&w, &a(STAKE), &SNAMES, &r, false, v));
         let dead = !v.is_empty();
